@@ -63,7 +63,7 @@ func main() {
 		if *budget == 0 {
 			*budget = 4 * time.Minute
 			if *tier == "thorough" {
-				*budget = 40 * time.Minute
+				*budget = 25 * time.Minute
 			}
 		}
 		seed, _ := strconv.Atoi(envOr("VERIF_SEED", "0"))
